@@ -157,6 +157,12 @@ class ContainerMixin:
         h1, a1 = h.define("litem", lambda old, y, j: If(And(y == l, 0 <= j, j < n), old(y, perm(j)), old(y, j)))
         p.heap = h1
         p.assume(a1)
+        if "pos" in (self.contract.modifies_ or ()):
+            # ghost code attached to the builtin: the ghost position of every node that sat in the sorted list follows the
+            # permutation (pos is specification-only state; a contract's ghost_exit may still redefine it at the exit)
+            h2, a2 = h1.define("pos", lambda old, o: If(And(l != L.LNONE, h._children(h._parent(o)) == l, 0 <= old(o), old(o) < n, h.litem(l, old(o)) == o), inv(old(o)), old(o)))
+            p.heap = h2
+            p.assume(a2)
         p.ghost.setdefault("perms", []).append((l, perm, inv))
         # a user key callback may raise (C13): the list is then still *some* permutation
         if "key" in kwargs and kwargs["key"].tag != "none":
